@@ -3,6 +3,7 @@ import PepperProofs.EndToEndLayoutT
 import PepperProofs.EndToEndMfe
 import PepperProofs.EndToEndTree
 import PepperProofs.EndToEndFinish
+import PepperProofs.EndToEndNames
 import PepperProofs.LoadInvDes
 import PepperProps.C02
 import PepperProps.C01
@@ -208,6 +209,22 @@ theorem end_to_end_tree_struct {b : Bundle} {fuel : Nat} {base : String} {args :
   have hin := treeIn_of_load hL hload
   obtain ⟨asg, assigned, out, _, hsat, hpr, hout, hap, hent⟩ := end_to_end_spec_struct hload hp hne hin hn ha hg
   exact ⟨asg, assigned, out, hpr, hout, hap, sat_congr' hequiv hsat, entries_congr hequiv hent⟩
+
+open Pepper.Sys Pepper.SysProofs in
+/-- **`MfeNamesDistinct` for compiled trees** reduces to the genuine content of F13: under the bundle hypotheses, the
+    names written into the `.mfe` file are pairwise distinct as soon as no structure is named like a sequence or a
+    starred sequence (`StructSeqApart`). -/
+theorem mfeNamesDistinct_of_compile {b : Bundle} {fuel : Nat} {base : String} {args : Nat} {argKey pfx path : String}
+    {includes : List String} {anon : Nat} {inst : Inst} {a' : Nat}
+    (hfile : Sys.loadFile b fuel base args argKey pfx path includes anon = .ok (inst, a'))
+    (hb : bundleOk Generated.nupackTable b = true) {spec : Spec}
+    (hload : Pil.load Generated.nupackTable (Emit.instStmts inst) {} = .ok spec) (h : StructSeqApart spec) :
+    MfeNamesDistinct spec := by
+  have hP : LoadInv.CompSrcsOk (fun c => LoadInv.StmtNamesOk c = true ∧ Comp.CodesOk Generated.nupackTable c = true) b :=
+    fun k c hl => ⟨LoadInv.stmtNamesOk_of_user (bundleOk_comp hb hl).1, (bundleOk_comp hb hl).2⟩
+  have hQ : LoadInv.SysSrcsOk (fun s => sysNamesOk s = true) b := fun k s hl => bundleOk_sys hb hl
+  have hL := LoadInv.loadFile_loaded hP hQ _ _ _ _ _ _ _ _ _ _ hfile
+  exact mfeNamesDistinct_of_tree hL hload h
 
 /-! ### the text level, for records the reader can read -/
 
